@@ -557,6 +557,13 @@ def cases(draw):
                 for f in spec["types"][n]["fields"] for a in f.get("args") or [] if "default" not in a]
         if outs and args:
             draw(st.sampled_from(args))["type"] = draw(st.sampled_from(outs))["type"]
+    ifaces = [n for n in spec["order"] if spec["types"][n]["kind"] == "interface"]
+    if ifaces and draw(st.integers(0, 3)) == 0:
+        # an interface nobody implements yet (legal): its first implementer may arrive with the diff
+        lonely = draw(st.sampled_from(ifaces))
+        for t in spec["types"].values():
+            if t["kind"] == "object" and lonely in t.get("interfaces", []):
+                t["interfaces"] = [i for i in t["interfaces"] if i != lonely]
     old = json.loads(json.dumps(spec))
     new = GS.Spec(json.loads(json.dumps(spec)))
     edits = []
